@@ -6,6 +6,8 @@ import exprgen, gen_prec, gen_lr, gen_kinds, gen_trace
 exprgen.Table()
 gen_prec.write(); gen_prec.write_sizes()
 gen_lr.write()
+import gen_lex
+gen_lex.startcond_table()
 gen_kinds.write_header(); gen_trace.write()
 vlib.coq_makefile()
 rc, o, e = vlib.sh(['make', '-k', '-j16'], cwd=vlib.COQ, timeout=6000)
